@@ -4,7 +4,7 @@
    theorems below are the facts it rests on.                                                              *)
 From Coq Require Import List NArith Bool.
 From TatsuV Require Import Base.PyStr Engine.Value Engine.Syntax Engine.Input Engine.Engine Engine.Calls Engine.CleanLaws
-     Engine.InputProof Engine.Config Engine.ConfigProof.
+     Engine.InputProof Engine.Config Engine.ConfigProof Engine.LayoutRel.
 Import ListNotations.
 
 (* skipping whitespace and comments is idempotent: after next_token nothing more can be skipped *)
@@ -57,6 +57,75 @@ Theorem C09_upper_case_rule_never_skips : forall text re_at isalnum isalpha lowe
     end.
 Proof. exact peval_token_rule_never_skips. Qed.
 Print Assumptions C09_upper_case_rule_never_skips.
+
+(* WHITESPACE INVARIANCE OF WHOLE PARSES, reduced to the lexical primitives.  Two texts with their regex oracles and a
+   one-to-one correspondence P between their positions; if skipping to the next token, matching a token, a pattern, any
+   character and the end-of-text test agree on corresponding positions and lead to corresponding positions (what a re-layout
+   of the whitespace between lexical elements preserves when no pattern matches whitespace), then for EVERY grammar, rule
+   table, keyword set and semantic-action oracle the two parses (clean semantics, parse information off: a ParseInfo holds
+   positions) return the same value, or fail alike, or raise the same exception.  Proved by a relational induction through
+   every construct (Engine/LayoutRel.v).  That a concrete re-layout yields such a P is what the relayout oracle of
+   harness/props/c09.py checks on the implementation; the identity correspondence shows the hypotheses are satisfiable. *)
+Theorem C09_layout_invariance :
+  forall (text1 text2 : str) (re1 re2 : nat -> nat -> option (nat * str)) isalnum isalpha lower upper ic unsafe (P : nat -> nat -> Prop),
+  (forall a b a' b', P a b -> P a' b' -> (a = a' <-> b = b')) ->
+  (forall p1 p2, P p1 p2 ->
+     match next_token text1 re1 ic p1, next_token text2 re2 ic p2 with
+     | Some q1, Some q2 => P q1 q2 | None, None => True | _, _ => False end) ->
+  (forall t p1 p2, P p1 p2 ->
+     match match_token text1 isalnum isalpha lower ic t p1, match_token text2 isalnum isalpha lower ic t p2 with
+     | Some q1, Some q2 => P q1 q2 | None, None => True | _, _ => False end) ->
+  (forall id p1 p2, P p1 p2 ->
+     match match_re text1 re1 id p1, match_re text2 re2 id p2 with
+     | Some (q1, v1), Some (q2, v2) => v1 = v2 /\ P q1 q2 | None, None => True | _, _ => False end) ->
+  (forall p1 p2, P p1 p2 -> atend text1 p1 = atend text2 p2) ->
+  (forall p1 p2, P p1 p2 ->
+     match char_at text1 p1, char_at text2 p2 with
+     | Some c1, Some c2 => c1 = c2 /\ P (S p1) (S p2) | None, None => True | _, _ => False end) ->
+  (forall p1 p2, P p1 p2 -> atend text1 p1 = false -> P (S p1) (S p2)) ->
+  forall rules ec act lineat1 lineat2, parseinfo ec = false ->
+  forall n start, P 0 0 ->
+  match pparse_with text1 re1 isalnum isalpha lower upper ic unsafe rules ec act lineat1 n start,
+        pparse_with text2 re2 isalnum isalpha lower upper ic unsafe rules ec act lineat2 n start with
+  | Ok v1 f1, Ok v2 f2 => v1 = v2 /\ P (pos f1) (pos f2)
+  | Fail c1, Fail c2 => c1 = c2
+  | Fatal x, Fatal y => x = y
+  | _, _ => False
+  end.
+Proof. exact layout_invariance_parse. Qed.
+Print Assumptions C09_layout_invariance.
+
+(* the same for the engine as it runs (memo cache of any capacity, pruning, guards) on grammars without left recursion *)
+Theorem C09_layout_invariance_engine :
+  forall (text1 text2 : str) (re1 re2 : nat -> nat -> option (nat * str)) isalnum isalpha lower upper ic unsafe (P : nat -> nat -> Prop),
+  (forall a b a' b', P a b -> P a' b' -> (a = a' <-> b = b')) ->
+  (forall p1 p2, P p1 p2 ->
+     match next_token text1 re1 ic p1, next_token text2 re2 ic p2 with
+     | Some q1, Some q2 => P q1 q2 | None, None => True | _, _ => False end) ->
+  (forall t p1 p2, P p1 p2 ->
+     match match_token text1 isalnum isalpha lower ic t p1, match_token text2 isalnum isalpha lower ic t p2 with
+     | Some q1, Some q2 => P q1 q2 | None, None => True | _, _ => False end) ->
+  (forall id p1 p2, P p1 p2 ->
+     match match_re text1 re1 id p1, match_re text2 re2 id p2 with
+     | Some (q1, v1), Some (q2, v2) => v1 = v2 /\ P q1 q2 | None, None => True | _, _ => False end) ->
+  (forall p1 p2, P p1 p2 -> atend text1 p1 = atend text2 p2) ->
+  (forall p1 p2, P p1 p2 ->
+     match char_at text1 p1, char_at text2 p2 with
+     | Some c1, Some c2 => c1 = c2 /\ P (S p1) (S p2) | None, None => True | _, _ => False end) ->
+  (forall p1 p2, P p1 p2 -> atend text1 p1 = false -> P (S p1) (S p2)) ->
+  forall rules ec act lineat1 lineat2, parseinfo ec = false ->
+  forall n start, P 0 0 ->
+  (forall r rl, get_rule rules r = Some rl -> r_lrec rl = false) ->
+  pparse_with text1 re1 isalnum isalpha lower upper ic unsafe rules ec act lineat1 n start <> Fatal OOF ->
+  match fst (parse_with text1 re1 isalnum isalpha lower upper ic unsafe rules ec act lineat1 n start),
+        fst (parse_with text2 re2 isalnum isalpha lower upper ic unsafe rules ec act lineat2 n start) with
+  | Ok v1 f1, Ok v2 f2 => v1 = v2 /\ P (pos f1) (pos f2)
+  | Fail c1, Fail c2 => c1 = c2
+  | Fatal x, Fatal y => x = y
+  | _, _ => False
+  end.
+Proof. exact layout_invariance_engine. Qed.
+Print Assumptions C09_layout_invariance_engine.
 
 (* nameguard *)
 Theorem C09_nameguard_blocks : forall text isalnum isalpha lower c tok pos ch,
